@@ -433,8 +433,20 @@ func (g *Gen) run() {
 			}
 			if assumeNonNilParams && g.ctr == nil {
 				for _, prm := range f.Params {
-					if _, isPtr := prm.Type().Underlying().(*types.Pointer); isPtr {
+					switch prm.Type().Underlying().(type) {
+					case *types.Pointer, *types.Interface:
+						// interface-typed parameters (ResponseWriter, Handler, ...) are never nil either when the framework calls in
 						g.w.assume(fmt.Sprintf("(not (= %s 0))", g.val(prm, st).S))
+					}
+				}
+				// requests handed to handlers by net/http are well-formed: URL and Header are set (listed assumption of the sweep)
+				for _, prm := range f.Params {
+					if types.TypeString(prm.Type(), nil) == "*net/http.Request" {
+						for _, fld := range []string{"URL", "Header"} {
+							if t, ok := g.fieldOfParam(prm, fld, st); ok {
+								g.w.assume(fmt.Sprintf("(not (= %s 0))", t))
+							}
+						}
 					}
 				}
 				// function literals: captured pointer variables are non-nil when the literal runs (listed assumption of the sweep)
@@ -1069,6 +1081,26 @@ func (g *Gen) dispenserRefs(st *State) []string {
 		}
 	}
 	return out
+}
+
+// fieldOfParam: the term for p.<field> in state st (p a pointer-to-struct parameter).
+func (g *Gen) fieldOfParam(prm *ssa.Parameter, field string, st *State) (string, bool) {
+	pt, ok := prm.Type().Underlying().(*types.Pointer)
+	if !ok {
+		return "", false
+	}
+	stt, ok := pt.Elem().Underlying().(*types.Struct)
+	if !ok {
+		return "", false
+	}
+	registerStruct(pt.Elem())
+	for i := 0; i < stt.NumFields(); i++ {
+		if stt.Field(i).Name() == field {
+			arr := g.w.heapArr(st, fldKey("obj:"+types.TypeString(pt.Elem(), nil), i), g.w.sortOf(stt.Field(i).Type()))
+			return fmt.Sprintf("(select %s %s)", arr.S, g.val(prm, st).S), true
+		}
+	}
+	return "", false
 }
 
 func (g *Gen) dispenserCursor(ref string, st *State) (string, bool) {
